@@ -102,6 +102,18 @@ def send_cases(rng, n, single_faults=True):
                     f = rng.choice(ASCII_ADDRS + ["-"])
                     mode = "sa"[(i + k) % 2]
                     cases.append(client_case(mode, "client.example", "SQ", f, to, rng.choice(MSGS[:4]), "", "", "", steps))
+    # long multi-line acceptances (each line short, 700-1400 octets in all) at every position: a reply is as long as the server
+    # makes it, only a single line is limited to 512 octets
+    for nr in (1, 2):
+        base = happy(rng, ["8BITMIME"], nr)
+        for i, (pos, (reply, _)) in enumerate(base):
+            for nlines in (12, 24):
+                code = reply[:3]
+                long = b"".join(code + (b" " if k == nlines - 1 else b"-") + (b"line %02d of a long but perfectly legal reply text" % k) + b"\r\n" for k in range(nlines))
+                steps = [s for _, s in base]
+                steps[i] = step(long)
+                for mode in "sa":
+                    cases.append(client_case(mode, "client.example", "SQ", "a@b.c", ["x@y.z", "p@q.r"][:nr], b"hello\r\n", "", "", "", steps))
     for i in range(n):
         feats = [x for x in FEATURES if rng.random() < 0.45]
         rng.shuffle(feats)
@@ -138,8 +150,8 @@ def send_cases(rng, n, single_faults=True):
 
 import base64 as _b64
 
-USERS = ["user", "", "u\x00ser", "üser", "a b", "x" * 1024, "user@example.com", "u\r\nQUIT"]
-PASSES = ["secret", "", "p\x00w", "pässwörd", "x" * 1024, "pa ss\r\nMAIL FROM:<x@y>"]
+USERS = ["user", "", "u\x00ser", "üser", "a b", "x" * 1024, "user@example.com", "u\r\nQUIT", " user ", "user\n", "\tuser"]
+PASSES = ["secret", "", "p\x00w", "pässwörd", "x" * 1024, "pa ss\r\nMAIL FROM:<x@y>", " secret", "secret ", "secret\r\n"]
 PROMPTS = [b"Username:", b"username:", b"USERNAME", b"User Name", b"user name", b"User Name\x00", b"Password:", b"PASSWORD", b"password",
            b"Password\x00", b"Passcode", b"", b"Username: ", b"user", b"\xff\xfe", b"Pa\xc3\x9fword:"]
 
